@@ -258,6 +258,34 @@ theorem buffer_read (b : BitBuffer) (dst : List Byte) (off len : Nat) (h : b.Inv
   exact ⟨fun hr => BitBuffer.readBitsWithOffsetLen_ok b dst off len hw hr hd,
          fun hr => BitBuffer.readBitsWithOffsetLen_eos b dst off len hrp hr⟩
 
+/-- write then read through the buffer: from any state satisfying the invariant whose read cursor
+    stands at the write cursor (the empty buffer, or one read to its end), a valid `write_bits*`
+    of `len` bits followed by a `read_bits*` of `len` bits gives back exactly the bits written, and
+    the buffer is again read to its end.  No bound on sizes or offsets. -/
+theorem buffer_write_then_read (b : BitBuffer) (src dst : List Byte) (off len : Nat) (h : b.Inv)
+    (hrp : b.rp = b.wp) (hs : off + len ≤ src.length * 8) (hd : len ≤ dst.length * 8) :
+    ∃ b' dst' b'', b.writeBitsWithOffsetLen src off len = ok b' ∧
+      b'.readBitsWithOffsetLen dst 0 len = ok (dst', b'') ∧
+      bitsOf dst' 0 len = bitsOf src off len ∧ b''.rp = b''.wp ∧ b''.wp = b.wp + len := by
+  obtain ⟨b', h1, h2, h3, h4⟩ := step_inv b (.bits src off len) h hs
+  have hwp : b'.wp = b.wp + len := by
+    have := congrArg List.length h3
+    simpa [BitBuffer.abs, WOp.bitsWritten] using this
+  obtain ⟨dst', g1, g2, g3⟩ := (buffer_read b' dst 0 len h2 (by omega) (by omega)).1 (by omega)
+  refine ⟨b', dst', _, h1, g1, ?_, by simp; omega, by simp; omega⟩
+  apply List.ext_getElem
+  · simp
+  · intro i hi1 hi2
+    have hi : i < len := by simpa using hi1
+    rw [getElem_bitsOf, getElem_bitsOf, g3]
+    have hc : (0 ≤ 0 + i ∧ 0 + i < 0 + len) := by omega
+    rw [if_pos hc]
+    have e1 : getBit b'.buffer (b'.rp + (0 + i - 0)) = (b'.abs)[b.wp + i]'(by simp [BitBuffer.abs]; omega) := by
+      simp only [BitBuffer.abs]; rw [getElem_bitsOf]; congr 1; omega
+    rw [e1]
+    simp only [h3, WOp.bitsWritten]
+    rw [List.getElem_append_right (by simp [BitBuffer.abs])]
+    simp [BitBuffer.abs, getElem_bitsOf]
 /-- the read-only view `Bits`: same, bounded by its declared bit length, not by the slice -/
 theorem bits_read (b : BitsView) (dst : List Byte) (off len : Nat) (h : b.Inv)
     (hd : off + len ≤ dst.length * 8) :
@@ -285,6 +313,15 @@ example : (BitBuffer.mk [0xff#8, 0xf0#8] 12 0).patchBit 9 false = ok (BitBuffer.
 example : (9 : Nat) < [0xff#8, 0xf0#8].length * 8 ∧
     sliceWriteBit [0xff#8, 0xf0#8] 9 false = ok ([0xff#8, 0xb0#8], 10) ∧
     sliceReadBit [0xff#8, 0xb0#8] 9 = ok (false, 10) := by decide
+-- `buffer_write_then_read`: 9 bits from source offset 3 into a buffer holding 5 consumed bits
+example : (BitBuffer.mk [0xa8#8] 5 5).Inv ∧ (3 : Nat) + 9 ≤ [0xAB#8, 0xCD#8].length * 8 ∧
+    (9 : Nat) ≤ [0#8, 0#8].length * 8 := by
+  refine ⟨⟨by decide, ?_⟩, by decide, by decide⟩
+  intro j hj
+  by_cases h8 : j < 8
+  · have : j = 5 ∨ j = 6 ∨ j = 7 := by simp at hj; omega
+    rcases this with rfl | rfl | rfl <;> decide
+  · exact getBit_of_ge _ j (by simp; omega)
 -- `placed_write`: a 12-bit buffer, 5 bits from source offset 2 placed at position 3
 example : (BitBuffer.mk [0xff#8, 0xf0#8] 12 0).atPos 3 (fun b => b.writeBitsWithOffsetLen [0x00#8] 2 5)
     = ok (BitBuffer.mk [0xe0#8, 0xf0#8] 12 0) := by decide
